@@ -18,7 +18,7 @@ import numpy as np
 
 import sim  # noqa: F401
 from sim import build
-from sim.core import attempt, exc_tag
+from sim.core import attempt, deep_tier, exc_tag
 from sim.oracle import snap, snap_diff, wellformed_problems
 
 PROPERTY = "C12"
@@ -65,7 +65,7 @@ def generate(rng, seed, part):
         objs.append(spec)
     ops = []
     holders = rng.randint(2, 4)
-    for _ in range(rng.randint(2, 16)):
+    for _ in range(rng.randint(2, 16) if not deep_tier(rng) else rng.randint(16, 45)):
         hold = rng.randrange(holders)
         if rng.random() < 0.5:
             ops.append({"h": hold, "op": "derive", "how": rng.choice(DERIVE), "src": rng.randrange(9),
@@ -205,7 +205,7 @@ def execute(plan, ctx):
         last_holder = op["h"]
         before = snapshots()
         if op["op"] == "derive":
-            if len(pool) >= 9:
+            if len(pool) >= 14:
                 continue
             i = op["src"] % len(pool)
             src = pool[i].h
